@@ -252,9 +252,20 @@ def oracle_c05(ctx, c, res, perm_res=None):
                         return
 
 
+# corpus of minimised failures, run first (steep low-temperature table: plain adaptive quadrature of spline(t)/t over the
+# whole span was wrong by 3.7e-5 while reporting 1.7e-7; fixed by 50fca92)
+CORPUS = [
+    {'op': 'corr', 'cls': cls, 'Ts': [117.0, 562.399, 351.145, 900.745, 300.124, 658.007, 410.84, 256.516, 187.389, 160.161, 480.683, 136.89,
+                                      219.245, 769.868, 100.0, 1053.872],
+     'Cps': [4.3079, 6.6159, 5.8937, 7.2417, 5.6255, 6.8165, 6.118, 5.4202, 4.9238, 4.6964, 6.412, 4.5347, 5.2076, 6.9902, 4.0813, 7.3597],
+     'T_ref': 1053.872, 'range': None, 'H': 20.2571, 'S': -1.8218, 'tref_region': 'max',
+     'evalTs': [100.0, 136.89, 256.516, 300.124, 1014.71, 1053.872], 'n_inside': 6,
+     'pairs': [[256.516, 136.89], [100.0, 1014.71], [1053.872, 136.89]], 'oracle': True} for cls in ('raw', 'inc')]
+
+
 def build_cases(ctx, n_raw, n_inc, n_bad):
     rng = ctx.rng
-    cases = []
+    cases = [dict(c) for c in CORPUS]
     for cls, n in (('raw', n_raw), ('inc', n_inc)):
         k = 0
         # all 6 reference regions appear, then random
